@@ -1,90 +1,17 @@
 package api
 
-// C04: exactly-once, in-order delivery when a client resumes with lastseen.
-//
-// The real getMessages loop runs against a specification model of the output
-// stream (what C08 establishes about Get/GetNext), on a node whose applied
-// prefix of the log may lag behind what the client has already seen and may
-// grow during the request.
+// C04, direct run: the real getMessages loop called directly (see c04common.go
+// for the stream specification).
 
 import (
-	"context"
-	"time"
-
 	"github.com/robustirc/robustirc/internal/outputstream"
 	"github.com/robustirc/robustirc/internal/robust"
 )
 
-type vGMCtx struct {
-	done      chan struct{}
-	cancelled bool
-}
-
-func (c *vGMCtx) Deadline() (time.Time, bool)       { return time.Time{}, false }
-func (c *vGMCtx) Done() <-chan struct{}             { return c.done }
-func (c *vGMCtx) Value(key interface{}) interface{} { return nil }
-func (c *vGMCtx) Err() error {
-	if c.cancelled {
-		return context.Canceled
-	}
-	return nil
-}
-func (c *vGMCtx) cancel() {
-	if !c.cancelled {
-		c.cancelled = true
-		close(c.done)
-	}
-}
-
-// the stream: batches with increasing ids; the node has applied batches[:vApplied]
-var (
-	vBatches [][]outputstream.Message
-	vApplied int
-	vGMctx   *vGMCtx
-)
-
-// vLagStep: the node may apply further batches at this point.
-func vLagStep() {
-	for vApplied < len(vBatches) && verifCase(2) == 1 {
-		vApplied++
-	}
-}
-
-func verifStub_osGet(o *outputstream.OutputStream, id robust.Id) ([]outputstream.Message, bool) {
-	for k := 0; k < vApplied; k++ {
-		if vBatches[k][0].Id.Id == id.Id {
-			return vBatches[k], true
-		}
-	}
-	return nil, false
-}
-
-// verifStub_osGetNext is the specification of OutputStream.GetNext (C08): the
-// applied batch with the smallest id greater than lastseen; if there is none,
-// block until the node applies another batch and return that one (whatever
-// its id); empty once the context is cancelled.
-func verifStub_osGetNext(o *outputstream.OutputStream, ctx context.Context, lastseen robust.Id) []outputstream.Message {
-	vLagStep()
-	for k := 0; k < vApplied; k++ {
-		if vBatches[k][0].Id.Id > lastseen.Id {
-			return vBatches[k]
-		}
-	}
-	if vApplied < len(vBatches) {
-		// blocked until the next batch is applied
-		vApplied++
-		return vBatches[vApplied-1]
-	}
-	// nothing more will ever come in this scenario: the client disconnects
-	vGMctx.cancel()
-	return []outputstream.Message{}
-}
-
-func verifStub_sleepLag(d time.Duration) { vLagStep() }
-
 func verifHarness_C04_resume() {
 	n := verifCase(verifParam("batches", 3)) + 1
 	vBatches = nil
+	vHandlerRun = false
 	prev := uint64(0)
 	for k := 0; k < n; k++ {
 		id := nondetU64()
@@ -103,6 +30,11 @@ func verifHarness_C04_resume() {
 	lastSeen := robust.Id{Id: vBatches[k0][0].Id.Id, Reply: uint64(r0)}
 	// the node it reconnects to has applied some prefix, possibly not yet batch k0
 	vApplied = verifCase(n + 1)
+	// findings are recorded per scenario class: the node already has the batch named by lastseen, or it lags behind it
+	vLagTag = ":node-has-the-batch"
+	if vApplied <= k0 {
+		vLagTag = ":lagging-node"
+	}
 	verifCaseLabel("batches=" + vItoa(n) + " seen=" + vItoa(k0) + "." + vItoa(r0) + " applied=" + vItoa(vApplied))
 	vGMctx = &vGMCtx{done: make(chan struct{})}
 	ch := make(chan []*robust.Message, 64)
@@ -136,9 +68,9 @@ func verifHarness_C04_resume() {
 				}
 			}
 		}
-		verifAssert(!seen, "no-duplicate-after-resume")
+		verifAssert(!seen, "no-duplicate-after-resume"+vLagTag)
 		for j2 := 0; j2 < j; j2++ {
-			verifAssert(got[j2] != got[j], "no-duplicate-after-resume")
+			verifAssert(got[j2] != got[j], "no-duplicate-after-resume"+vLagTag)
 		}
 	}
 	// (2) everything after the resume point arrives
@@ -149,7 +81,7 @@ func verifHarness_C04_resume() {
 				found = true
 			}
 		}
-		verifAssert(found, "no-loss-after-resume")
+		verifAssert(found, "no-loss-after-resume"+vLagTag)
 	}
 	verifAssert(len(got) >= 0, "delivery-sequence-compared")
 	// (3) in id order
@@ -159,4 +91,3 @@ func verifHarness_C04_resume() {
 	}
 }
 
-func vItoa(n int) string { return string(rune('0' + n)) }
